@@ -465,6 +465,15 @@ class PyCFG:
                 if s.handlers:
                     # an exception no handler matches still runs finally
                     targets = targets + [fin_entry.idx]
+            elif s.handlers:
+                # no finally: an exception that no handler matches (anything outside `Exception`
+                # for `except Exception`) leaves the statement - unless a handler catches all
+                catch_all = any(h.type is None or dotted(h.type) == 'BaseException' or
+                                (isinstance(h.type, ast.Tuple) and
+                                 any(dotted(e) == 'BaseException' for e in h.type.elts))
+                                for h in s.handlers)
+                if not catch_all:
+                    targets = targets + (list(self._trys[-1][0]) if self._trys else [self.raise_exit.idx])
             self._trys.append((targets, s.finalbody or None))
             bo = self._block(s.body, outs)
             self._trys.pop()
